@@ -27,6 +27,11 @@ def plugin_mod():
 
 
 def run(trace, render=None):
+    """run_unguarded under e1's resource guard"""
+    return e1.guarded(run_unguarded, trace, render)
+
+
+def run_unguarded(trace, render=None):
     gdb, plugin = plugin_mod()
     m = e1.mods()
     render = dict(render or {'dialect': 'new'})
